@@ -629,6 +629,12 @@ def smt_inputs(chk, T):
 def c05(tier, replay=None):
     chk = Check("C05", tier, "model_checking")
     T = chk.thorough()
+    # (M) the writer's Bool / bit-vector coercion design (SmtWriter.tla, a transcription of serialize_expr): every operator
+    # over leaves of every type under both context flags is strictly well-sorted, of the promised sort and value-preserving
+    mcfg = pv.write_cfg(chk.work / "SmtWriter.cfg", constants={"BuilderInvariant": "TRUE"}, invariants=("Contract",))
+    r = pv.tlc_ok("SmtWriter", mcfg, workers=4, timeout=3000, xmx="4g")
+    chk.add_states(r.generated, r.distinct)
+    chk.part("SmtWriter_model", states=r.distinct, invariant="Contract")
     trace = chk.work / "trace.ndjson"
     if replay:
         rep = json.loads(Path(replay).read_text())
@@ -640,6 +646,15 @@ def c05(tier, replay=None):
         info = json.loads(p.stdout.strip().splitlines()[-1])
     st = batch_check(chk, "Trace_C05", trace, lambda rj, rec: {"why": rj["why"], "loc": rj.get("loc", "").split("|")[0]},
                      lambda rj, rec: {"record": rec, "tlc": rj}, shards=14)
+    # binding of the transcription: the real writer's text, read by the harness' front end, against Ser(..) node for node.
+    # A difference is model drift (the design-level result no longer transfers), not a violation of C05: Trace_C05 above
+    # judges the property on the real text either way.
+    drift, st2 = pv.validate("Trace_SmtWriter", pv.SPEC / "Trace_SmtWriter.cfg", trace, shards=14)
+    chk.add_states(st2["generated"], st2["distinct"])
+    chk.part("SmtWriter_transcription", same=st2["records"] - len(drift), differs=len(drift))
+    if drift:
+        print(f"NOTE: C05 spec/SmtWriter.tla differs from smt/serialize.rs on {len(drift)} of {st2['records']} recorded commands (first: {drift[0].get('id')}); "
+              "the design-level result is not transferable to this tree - the property itself is decided by Trace_C05", flush=True)
     chk.cov["traces_validated_against_impl"] = st["records"]
     chk.cov["evaluations"] = st["records"]
     chk.cov["distinct_nontrivial"] = st["records"]
@@ -713,6 +728,36 @@ def run_mc(chk, kind, nsys, kmax, T, name, scripts=False, shards=14, extra=()):
     return trace, inc
 
 
+def init_order_class(S, msg):
+    """the input class of KF-C04-init-order as it shows at the level of a model-checking run: z3 reports `unknown constant
+    <state>@0` and the system has a non-leaf init expression that reads a state and is also (part of) a next / bad /
+    constraint / output function (so the encoder defines it as a step-0 signal before the step-0 state symbols)"""
+    import re
+    m = re.search(r"unknown constant \|?([^\s|\"]+)@0", msg or "")
+    # (the solver's error reply can also arrive where a value is expected: "failed to parse a response")
+    if not S or not (m or "failed to parse a response" in (msg or "")):
+        return False
+    nodes = S["nodes"]
+    if m and m.group(1) not in {st["name"] for st in S["states"]}:
+        return False
+
+    def reach(roots):
+        seen, todo = set(), [r for r in roots if r]
+        while todo:
+            i = todo.pop()
+            if i not in seen:
+                seen.add(i)
+                todo += nodes[i - 1]["a"]
+        return seen
+    state_syms = {st["sym"] for st in S["states"]}
+    others = reach([st["next"] for st in S["states"]] + list(S["bads"]) + list(S["constraints"]) + [o["expr"] for o in S.get("outputs", [])])
+    for st in S["states"]:
+        i = st["init"]
+        if i and nodes[i - 1]["a"] and (reach([i]) & state_syms) and (reach([i]) - state_syms - {j for j in reach([i]) if not nodes[j - 1]["a"]}) & others:
+            return True
+    return False
+
+
 def mc_rejects(chk, trace, props):
     rejects, st = pv.validate("Trace_MC", pv.SPEC / "Trace.cfg", trace, shards=14, boundary='"ev":"Sys"')
     chk.add_states(st["generated"], st["distinct"])
@@ -726,8 +771,10 @@ def mc_rejects(chk, trace, props):
         run = seg[-1]
         msg = (rj.get("msg") or "")
         cls = ""
-        if "unknown constant" in msg or "invalid declaration" in msg or "already declared" in msg or "already defined" in msg:
-            cls = "solver rejected the script"
+        if "unknown constant" in msg or "invalid declaration" in msg or "already declared" in msg or "already defined" in msg or "failed to parse a response" in msg:
+            cls = "solver rejected the script" if "failed to parse" not in msg else ""
+            if init_order_class(run.get("sys") if run.get("has_sys") else seg[0].get("sys"), msg):
+                cls = "init-order: a state symbol of step 0 is unknown and an init expression that reads a state is shared with another function"
         chk.report({"why": rj["why"], "cls": cls, "engine": run.get("cfg", {}).get("engine", "")},
                    {"system": seg[0], "run": {k: v for k, v in run.items() if k != "script"}, "tlc": rj})
     return st
@@ -920,7 +967,7 @@ def c15(tier, replay=None):
         pv.write_ndjson(trace, [rep["detail"]["record"]])
         inc = 0
     else:
-        trace, inc = run_mc(chk, "faults", 12 if T else 3, 3, T, "faults", extra=["--max-pos", 400 if T else 30, "--stall", 12])
+        trace, inc = run_mc(chk, "faults", 12 if T else 3, 3, T, "faults", extra=["--max-pos", 400 if T else 30, "--stall", 40])
     st = batch_check(chk, "Trace_C15", trace, lambda rj, rec: {"why": rj["why"], "fault": rec.get("cfg", {}).get("fault_kind", ""), "engine": rec.get("cfg", {}).get("engine", "")},
                      lambda rj, rec: {"record": {k: v for k, v in rec.items() if k not in ("sys", "script")}, "tlc": rj}, shards=8)
     nf = sum(1 for line in open(trace) if '"ev":"Fault"' in line)
